@@ -407,6 +407,11 @@ func checkC07(c *Ctx) {
 		c.sameDataChecked(ab)
 		c.sha256Len(ab)
 	}
+	// an edit that is refused leaves the database as it was (otherwise the next encoding
+	// carries a half-made list that the decoder rejects); shared with C09
+	if ap := c.FnOpt("efi/signature.(*SignatureDatabase).Append"); ap != nil {
+		c.ruleErrorChangesNothing(ap)
+	}
 	c.ruleNoAlias("G9.copy")
 	c.ruleDecodeReplaces("G14.replace", func(f *ssa.Function) bool { return strings.Contains(name(f), "efi/signature.") })
 	c.R.Floor("G14.replace", 2)
@@ -510,6 +515,8 @@ func checkC08(c *Ctx) {
 	in := func(fn *ssa.Function) bool { return scope[fn] }
 	c.RuleT("", in, map[string]bool{"T1": true, "T2": true})
 	c.ruleBareRead("G10.fullread", in)
+	// a rejected list is rejected with an error (not one that is nil at that point)
+	c.ruleStaleNil("N3.stalenil", in)
 	e := c.accept()
 	e.Require("A-d", rl, []*fact{factKnownType, factWholeEntries, factHeaderSizeZero})
 	// A-d2: SHA-256 lists only with Size == 48
